@@ -16,7 +16,7 @@ RULE = (
     "four base files (2.0 with ~V ~W ~P ~X ~C ~A; one with duplicated mnemonics; one version 1.2; one made of terse lines without description or without period); junk = every string "
     "of length 1..3 (thorough 1..4) over {. : blank a 1 \" - ( # / E _ ,} plus adversarial long lines (500 periods, 500 "
     "colons, quotes only, 5000 digits, ':.', '.:', '..:', parsable lines carrying 25-40 digit integers, 1e999, hex); inserted at every line boundary inside ~V, ~W, ~P and the "
-    "custom section, one line at a time, and all pairs (two junk lines at two sites) over the short strings; each text "
+    "custom section, one line at a time, and all pairs (two junk lines at two sites) over the short strings and over eight parsable lines ('%' in the name, blank and literal UNKNOWN names, a 5000-character name, the name of a genuine item), the same line twice included; each text "
     "is read with and without ignore_header_errors; non-trivial = junk that is neither blank nor a '#' comment"
 )
 ASSUMPTIONS = [
@@ -31,7 +31,11 @@ LONG = ["." * 500, ":" * 500, '"' * 40, "'" * 40, "1" * 5000, ":.", ".:", "..:",
         # parsable lines whose value is far outside every machine number range
         "a. " + "9" * 25 + " : d", "X. 123456789012345678901234567890", "Q.U -" + "9" * 40 + " : big", "a. 1e999 : d", "a. -1E+4000 :",
         "9" * 30 + ". 1 : digits as name", "a." + "9" * 30 + " 5 : digits as unit", "a : " + "9" * 25, "a. 0x" + "F" * 20 + " : hex",
-        "@.# $ : %", "junk.unit value : descr", ".u : d"]
+        "@.# $ : %", "junk.unit value : descr", ".u : d", "REC%. 100 : core recovery", "a%d. 1 : x", "%. 5 : p", "%(x)s.%s 1 : %%",
+        "{0}.{1} {2} : {}", "A. 1 : same name as a genuine item"]
+# parsable junk inserted twice (same line at two sites, and every ordered pair): duplicates take another path than single items
+PAIR_EXTRA = ["REC%. 100 : core recovery", "a%d. 1 : x", "%. 5 : p", "junk.unit value : descr", "A. 1 : same name as a genuine item",
+              ". 3 : blank name", "UNKNOWN. 4 : literal unknown", "X" * 5000 + ". 1 : very long name"]
 
 BASES = [
     ("~Version\nVERS. 2.0 : version\nWRAP. NO : wrap\n~Well\nSTRT.M 1.0 : start\nSTOP.M 3.0 : stop\nSTEP.M 1.0 : step\n"
@@ -184,6 +188,7 @@ def check_point(pt, only=None):
             # thorough: the single symbols plus the two-symbol strings built from the structural characters
             js = js + [a + b for a in ".: a1\"" for b in ".: a1\""]
         cases = [[(sites[pt[2]], a), (sites[pt[3]], b)] for a in js for b in js]
+        cases += [[(sites[pt[2]], a), (sites[pt[3]], b)] for a in PAIR_EXTRA for b in PAIR_EXTRA]
     for ci, pairs in enumerate(cases):
         if only is not None and ci != only:
             continue
